@@ -1306,7 +1306,18 @@ fn check_logic_variable_operands(
     for operand in operands {
         // (an operand that is a variable once it is simplified - `x + 0`, `1 * x` -
         // is that variable)
-        let simplified = if is_logic && !matches!(operand, Exp::Variable(_)) {
+        // (only an arithmetic operand can turn into a variable; a logic one is a
+        // truth value whatever it simplifies to, and its own operands are
+        // visited below)
+        let is_arithmetic = matches!(
+            operand,
+            Exp::Abs(_)
+                | Exp::Min(_)
+                | Exp::Max(_)
+                | Exp::UnOp(UnOp::Neg, _)
+                | Exp::BinOp(BinOp::Add | BinOp::Sub | BinOp::Mul | BinOp::Div, _, _)
+        );
+        let simplified = if is_logic && is_arithmetic {
             Some(operand.clone().normal_form())
         } else {
             None
